@@ -117,9 +117,21 @@ class C03(PropCheck):
                     continue
                 sec2.add(line, 'ok', meta=meta, nontrivial=len(meta['items']) >= 2, tags=tags)
 
+        sec3 = run.section(
+            'families',
+            'deterministic families (harness/families.py): per page, the bottom edges of in-flow lines and table rows '
+            'checked by the Lean geometry checker; non-trivial = a page with at least 2 items')
+        self._family_known, cases = wide_trace.family_cases('C03')
+        for kind, line, meta in cases:
+            if kind == 'fits':
+                sec3.add(line, 'ok', meta=meta, nontrivial=len(meta['items']) >= 2,
+                         tags=[meta['doc_id'].split('-')[0]])
+
     def classify(self, d):
         if d['section'] == 'wide-geometry':
             return wide_trace.explain_fits(d['meta'])
+        if d['section'] == 'families' and d['meta']['doc_id'] in self._family_known.get('fits', ()):
+            return 'family-documents-known'
         return None
 
     def finding_replays(self):
@@ -128,6 +140,9 @@ class C03(PropCheck):
                 'table-rows-after-overflowing-first-item': lambda: corpus_overflow('table_rows_after_overflow')}
 
     def judge(self, d):
+        if d['section'] == 'families':
+            return (f'{d["meta"]["doc_id"]}: in-flow items {d["model"]} end below the content box bottom '
+                    f'{d["meta"]["bottom"]} without being first on their page')
         if d['section'] == 'wide-geometry':
             return (f'page {d["meta"]["page_index"]}: in-flow items {d["model"]} end below the content box bottom '
                     f'{d["meta"]["bottom"]} without being first on their page')
